@@ -15,6 +15,7 @@ import EaselModel.Dsqdata.PackMem
 import EaselModel.Pipeline.Locks
 import EaselModel.Pipeline.Fatal
 import EaselModel.Pipeline.Liveness
+import EaselModel.Pipeline.FairWitness
 import EaselModel.Dsqdata.ShortRead
 import EaselModel.Dsqdata.CutLemmas
 /-! # C12 — property theorems (statements + glue only; lemmas live in WorkQueue/*.lean, Dsqdata/*.lean)
@@ -817,6 +818,12 @@ theorem pipe_liveness_weak_fairness {U T C : Nat} (hU : 0 < U) (e : Pipeline.Exe
   obtain ⟨j, h1, h2⟩ := Pipeline.fair_reaches_eof hU e hf
   exact ⟨j, h1, h2, by rw [(pipe_order hU (e.reach j)).1, h1]⟩
 
+/-- **The hypotheses of the liveness theorem are satisfiable**: a weakly fair infinite execution exists (`Pipeline.demoExec`: one chunk
+    through one unpacker to one consumer - 15 steps - then `Read` answering EOF for ever); more generally any finite schedule that
+    runs the pipeline to its quiescent end, followed by `Read` calls for ever, is one (`Pipeline.execOf_fair`). -/
+theorem pipe_fair_execution_exists : ∃ e : Pipeline.Exec 1 1 1, Pipeline.WeaklyFair e ∧ (e.st 15).nchunk = 1 :=
+  ⟨Pipeline.demoExec, Pipeline.demoExec_fair, by decide⟩
+
 /-- non-vacuity of the variant: 3 chunks, 2 unpackers, 2 consumers start at `phi = 39`; the run of the example further up (13 steps,
     all of them progress) has brought it down by 13 -/
 example : Pipeline.phi (Pipeline.Sys.create 2 3 2) = 39 := by decide
@@ -929,6 +936,58 @@ theorem dsq_cut_data_files (tag alphatype : Nat) (fname fmt : List UInt8) (db : 
   · have := Dsqdata.cut_mfp_run maxseq maxpacket (o.ifp.length / 16 + 2) (Dsqdata.BState.init o) m
     rw [hrun] at this
     exact this
+
+/-- **… from the cut FILES.** The same, starting at the bytes on disk: in the four files written for `db`, cut `.dsqs` (resp. `.dsqm`)
+    `m` bytes behind its 8-byte header. `esl_dsqdata_Open` accepts the files (the headers are intact) and the loader then delivers the
+    intact database's chunks `out` - all of them followed by end of data, or a prefix of them followed by its fatal short-read error. -/
+theorem dsq_cut_files (tag alphatype : Nat) (fname fmt : List UInt8) (db : List Dsqdata.SeqRec) (maxseq : Nat) (maxpacket : Int)
+    (hty : alphatype = 1 ∨ alphatype = 2 ∨ alphatype = 3) (hwf : ∀ r ∈ db, r.Wf)
+    (hlen : ∀ r ∈ db, r.dsq.length < 6 * Dsqdata.MAXPACKET) (hms : 1 ≤ maxseq)
+    (hfit : ∀ r ∈ db, ((Dsqdata.pk (alphatype == 3) r.dsq).length : Int) ≤ maxpacket)
+    (h1 : (db.map fun r => (Dsqdata.pk (alphatype == 3) r.dsq).length).sum < 2 ^ 63)
+    (h2 : (db.map fun r => (Dsqdata.encodeMeta (Dsqdata.metaOf r)).length).sum < 2 ^ 63)
+    (expect : Option Nat) (hexp : expect = none ∨ expect = some alphatype) (m : Nat) :
+    ∃ (f : Dsqdata.Files) (out : List (Dsqdata.BChunk × List Dsqdata.SeqRec)) (os om : Dsqdata.Opened),
+      Dsqdata.writeDb tag alphatype fname fmt db = .ok f ∧ out.flatMap (·.2) = db ∧
+      Dsqdata.openDb expect { f with seq := f.seq.take (8 + m) } = .ok os ∧
+      (Dsqdata.loaderRunX maxseq maxpacket (os.ifp.length / 16 + 2) (Dsqdata.BState.init os) = (out.map (·.1), .eof) ∨
+        ∃ k w g, (Dsqdata.loaderRunX maxseq maxpacket (os.ifp.length / 16 + 2) (Dsqdata.BState.init os)).1 = (out.map (·.1)).take k ∧
+          (Dsqdata.loaderRunX maxseq maxpacket (os.ifp.length / 16 + 2) (Dsqdata.BState.init os)).2 = .fatalPackets w g ∧ g < w) ∧
+      Dsqdata.openDb expect { f with mdat := f.mdat.take (8 + m) } = .ok om ∧
+      (Dsqdata.loaderRunX maxseq maxpacket (om.ifp.length / 16 + 2) (Dsqdata.BState.init om) = (out.map (·.1), .eof) ∨
+        ∃ k w g, (Dsqdata.loaderRunX maxseq maxpacket (om.ifp.length / 16 + 2) (Dsqdata.BState.init om)).1 = (out.map (·.1)).take k ∧
+          (Dsqdata.loaderRunX maxseq maxpacket (om.ifp.length / 16 + 2) (Dsqdata.BState.init om)).2 = .fatalMeta w g ∧ g < w) := by
+  obtain ⟨f, hw, hos, hom⟩ := Dsqdata.openDb_cut tag alphatype fname fmt db hty hlen expect hexp m
+  obtain ⟨out, hr, ht⟩ := Dsqdata.readDb_written tag alphatype db maxseq maxpacket hwf hms hfit h1 h2
+  have hrun := Dsqdata.readDb_runX maxseq maxpacket _ out hr
+  have hdb : out.flatMap (·.2) = db := by simpa using Dsqdata.tiles_flatten_db _ db maxseq maxpacket out 0 ht
+  refine ⟨f, out, _, _, hw, hdb, hos, ?_, hom, ?_⟩
+  · have := Dsqdata.cut_sfp_run maxseq maxpacket ((Dsqdata.writtenHeader tag alphatype (alphatype == 3) db).ifp.length / 16 + 2)
+      (Dsqdata.BState.init (Dsqdata.writtenHeader tag alphatype (alphatype == 3) db)) m
+    rw [hrun] at this
+    exact this
+  · have := Dsqdata.cut_mfp_run maxseq maxpacket ((Dsqdata.writtenHeader tag alphatype (alphatype == 3) db).ifp.length / 16 + 2)
+      (Dsqdata.BState.init (Dsqdata.writtenHeader tag alphatype (alphatype == 3) db)) m
+    rw [hrun] at this
+    exact this
+
+/-- **The loader's end-of-data check (`i0 != dd->nseq`, fix 78cbf46) passes on every written database**: with the check in the model
+    (`readDbX`) the read of what `esl_dsqdata_Write` wrote still ends with end of data - the count of sequences in the chunks is the
+    index header's `nseq` - for every database of fewer than `2^64` records under the hypotheses of `read_written_database`. (A `.dsqi`
+    cut behind its header fails the check: the loader's fatal branch, tied by the `dsqcut` runs.) -/
+theorem dsq_written_passes_nseq_check (tag alphatype : Nat) (db : List Dsqdata.SeqRec) (maxseq : Nat) (maxpacket : Int)
+    (hwf : ∀ r ∈ db, r.Wf) (hms : 1 ≤ maxseq)
+    (hfit : ∀ r ∈ db, ((Dsqdata.pk (alphatype == 3) r.dsq).length : Int) ≤ maxpacket)
+    (h1 : (db.map fun r => (Dsqdata.pk (alphatype == 3) r.dsq).length).sum < 2 ^ 63)
+    (h2 : (db.map fun r => (Dsqdata.encodeMeta (Dsqdata.metaOf r)).length).sum < 2 ^ 63) (hn : db.length < 2 ^ 64) :
+    (Dsqdata.readDbX maxseq maxpacket (Dsqdata.writtenHeader tag alphatype (alphatype == 3) db)).2 = .eof :=
+  Dsqdata.readDbX_written tag alphatype db maxseq maxpacket hwf hms hfit h1 h2 hn
+
+/-- … and a cut index does not: `demoDb` with the second index record missing ends in `fatalIndex 2 1` after the first chunk -/
+example : (match Dsqdata.openDb none (match Dsqdata.writeDb 7 2 [] [] demoDb with
+      | .ok f => { f with idx := f.idx.take (52 + 16) } | _ => ⟨[], [], [], []⟩) with
+    | .ok o => ((Dsqdata.readDbX 1 4 o).2, (Dsqdata.readDbX 1 4 o).1.length)
+    | _ => (.fault, 0)) = (.fatalIndex 2 1, 1) := by decide +kernel
 
 /-- non-vacuity: `demoDb` (2 records, one per chunk): `.dsqs` cut 4 bytes behind its header - the first chunk's packets are
     incomplete - ends in the fatal branch with no chunk delivered; cut behind everything, both chunks and end of data -/
